@@ -465,10 +465,9 @@ def kfEmpty (fac : DecApi.Factory) (kept : List Message) : Bool := seqClass kfEm
 
 /-! ### classes of DECODER OUTPUT on which encoding and decoding again does not return the very same messages -/
 
-/-- KF-C01-undersized: a field the factory knows as an ARRAY whose definition gives it fewer bytes than one element of its
-base type — the decoder assembles the bytes into ONE number and returns it as a scalar (`convertBytesToValue`) although
-`FieldBase.Array` is set; written again it occupies one full element and comes back as a one-element array -/
-def kfUndersizedF (d : DecApi.DField) : Bool := d.known && d.array && !isSlice d.value
+/- (KF-C01-undersized, repaired in /repo: a field the factory knows as an ARRAY whose definition gives it fewer bytes than
+one element of its base type was returned as a SCALAR — the class `kfUndersizedF d = d.known && d.array && !isSlice d.value`
+is gone; `decodeFields` returns the array of the one assembled number, `Fit.DecApi.undersizedValue`.) -/
 
 /-- a string array with fewer than two strings -/
 def shortStrs : Value → Bool
@@ -482,7 +481,6 @@ the UTF-8 cleaning of `UnmarshalValue`: it returns `[]string{"a"}` / `[]string{}
 def kfPiecesF (d : DecApi.DField) : Bool := !d.known && shortStrs d.value
 def kfPiecesD (d : DecApi.DDev) : Bool := shortStrs d.value
 
-def kfUndersized (ms : List DecApi.Msg) : Bool := ms.any fun m => m.fields.any kfUndersizedF
 def kfPieces (ms : List DecApi.Msg) : Bool := ms.any fun m => m.fields.any kfPiecesF || m.devs.any kfPiecesD
 
 def f64Typed : Value → Bool
